@@ -184,6 +184,11 @@ where
 
                 match stream {
                     Ok(mut stream) => {
+                        // A response must leave as soon as it is written: if it is held back (Nagle) until
+                        //   earlier data is acknowledged, closing the connection while request bytes are still
+                        //   unread resets the connection and the response is never sent.
+                        let _ = stream.set_nodelay(true);
+
                         let cloned_state = self.state.clone();
 
                         // Check that the client is allowed to connect
@@ -297,6 +302,9 @@ where
 
                 match sock {
                     Ok(mut sock) => {
+                        // See `run`: a response must leave as soon as it is written.
+                        let _ = sock.set_nodelay(true);
+
                         let cloned_state = self.state.clone();
 
                         // Check that the client is allowed to connect
